@@ -443,7 +443,7 @@ func (s *Server) Env(op EnvOp) int {
 			}
 		}
 		mutate(func(o Obj) {
-			st := Obj{"conditions": []interface{}{Obj{"type": "Ready", "status": "True"}}}
+			st := Obj{"conditions": []interface{}{Obj{"type": "Ready", "status": "True", "reason": "Healthy"}}}
 			mode := ""
 			if len(op.Path) > 0 {
 				mode = op.Path[0]
